@@ -13,6 +13,9 @@ def main(tier):
     n = len(catalogue.builders(tier, SEED))
     runner.run(rep, 'VacancyMediated::contract', V.w_vacancy, [(cid, tier, SEED, 'C06') for cid in V.vac_ids(tier) + EXTRA], 'onsager/OnsagerCalc.py::VacancyMediated.Lij')
 
+    from vf.pyvc import driver
+    from contracts import tracer_c
+    for c in tracer_c.C06_CONTRACTS: driver.verify_function(c(), rep, tier)      # E1: what the tracer data generator returns, for any number of classes
     from contracts import degree_c
     degree_c.run(rep, ['VacancyMediated.Lij', 'VacancyMediated._symmetricandescaperates'], replay=degree_c.replay_lij)     # the identities are statements about rate RATIOS: nothing in Lij may compare a rate with a fixed number
     from vf import extract
